@@ -330,6 +330,11 @@ def r10_7_shared(repo: Repo, rep: Report):
     from hsa.rules.c03 import r03_4_verdict_domain
 
     r03_4_verdict_domain(repo, rep)
+    # round 7: a branch answered `unsat` without the solver is cut without any report - the solver-free shortcuts
+    # must be the reviewed, sound ones (shared with C02 R02.2)
+    from hsa.rules.c02 import r02_2_solver_free_unsat
+
+    r02_2_solver_free_unsat(repo, rep)
 
 
 RULES = [r10_5_message_identity, r10_1_cut_report_pairing, r10_2_loop_logs_reported, r10_3_reports_not_deduplicated, r10_4_cache_published_before_complete, r10_6_setup_paths, r10_7_shared]
